@@ -30,7 +30,6 @@ import (
 	"github.com/EliCDavis/polyform/modeling"
 	"github.com/EliCDavis/polyform/modeling/meshops"
 	"github.com/EliCDavis/polyform/modeling/meshops/gausops"
-	"github.com/EliCDavis/polyform/modeling/primitives"
 	"github.com/EliCDavis/polyform/modeling/repeat"
 	"github.com/EliCDavis/polyform/nodes"
 	"github.com/EliCDavis/vector/vector2"
@@ -65,6 +64,17 @@ type Env struct {
 	Large bool
 	// FanOut: drive the Parallel variants with more workers than elements and a slow callback.
 	FanOut bool
+	// SourceBase (≠ 0): sources draw their shape-determining ("base") parameters from this seed
+	// instead of the call's generator, so that a history can build the same base shape again
+	// with equal or different secondary parameters while earlier instances are live.
+	SourceBase int64
+}
+
+func (e *Env) baseRng(r *rand.Rand) *rand.Rand {
+	if e != nil && e.SourceBase != 0 {
+		return rand.New(rand.NewSource(e.SourceBase))
+	}
+	return r
 }
 
 // Call is one fully parameterised invocation.
@@ -83,7 +93,9 @@ type Call struct {
 	Async bool
 	// Evidence: a short tag the monitors count (which hazardous shape this call has).
 	Evidence string
-	Run      func() ([]modeling.Mesh, error)
+	// BaseKey (sources): the base parameters this instance was built with.
+	BaseKey string
+	Run     func() ([]modeling.Mesh, error)
 }
 
 type Op struct {
@@ -1323,49 +1335,10 @@ func All() []Op {
 		}}
 	}})
 
-	// ---- sources --------------------------------------------------------------
-	add(Op{Name: "primitives.Cube.Welded", Group: "source", Kind: Source, Make: func(r *rand.Rand, m *modeling.Mesh, e *Env) Call {
-		c := primitives.Cube{Width: 1 + r.Float64(), Height: 1 + r.Float64(), Depth: 1 + r.Float64()}
-		if r.Intn(2) == 0 {
-			c.UVs = primitives.DefaultCubeUVs()
-		}
-		return Call{Desc: "Cube.Welded", Pre: true, Run: func() ([]modeling.Mesh, error) { return one(c.Welded()) }}
-	}})
-	add(Op{Name: "primitives.UnitCube", Group: "source", Kind: Source, Make: func(r *rand.Rand, m *modeling.Mesh, e *Env) Call {
-		return Call{Desc: "UnitCube", Pre: true, Run: func() ([]modeling.Mesh, error) { return one(primitives.UnitCube()) }}
-	}})
-	add(Op{Name: "primitives.Cube.UnweldedQuads", Group: "source", Kind: Source, Make: func(r *rand.Rand, m *modeling.Mesh, e *Env) Call {
-		c := primitives.Cube{Width: 1 + r.Float64(), Height: 1, Depth: 2}
-		if r.Intn(2) == 0 {
-			c.UVs = primitives.DefaultCubeUVs()
-		}
-		return Call{Desc: "Cube.UnweldedQuads", Pre: true, Run: func() ([]modeling.Mesh, error) { return one(c.UnweldedQuads()) }}
-	}})
-	add(Op{Name: "primitives.UVSphere", Group: "source", Kind: Source, Make: func(r *rand.Rand, m *modeling.Mesh, e *Env) Call {
-		rows, cols, w := 2+r.Intn(4), 3+r.Intn(4), r.Intn(2) == 0
-		return Call{Desc: fmt.Sprintf("UVSphere(%d,%d,welded=%v)", rows, cols, w), Pre: true, Run: func() ([]modeling.Mesh, error) {
-			if w {
-				return one(primitives.UVSphere(1, rows, cols))
-			}
-			return one(primitives.UVSphereUnwelded(1, rows, cols))
-		}}
-	}})
-	add(Op{Name: "primitives.Cylinder", Group: "source", Kind: Source, Make: func(r *rand.Rand, m *modeling.Mesh, e *Env) Call {
-		c := primitives.Cylinder{Sides: 3 + r.Intn(5), Height: 1, Radius: 0.5, NoTop: r.Intn(2) == 0, NoBottom: r.Intn(2) == 0}
-		return Call{Desc: "Cylinder", Pre: true, Run: func() ([]modeling.Mesh, error) { return one(c.ToMesh()) }}
-	}})
-	add(Op{Name: "primitives.Quad/Circle/Cone", Group: "source", Kind: Source, Make: func(r *rand.Rand, m *modeling.Mesh, e *Env) Call {
-		v, sides := r.Intn(3), 3+r.Intn(5)
-		return Call{Desc: fmt.Sprintf("Quad/Circle/Cone %d", v), Pre: true, Run: func() ([]modeling.Mesh, error) {
-			switch v {
-			case 0:
-				return one(primitives.Quad{Width: 1, Depth: 2, UVs: &primitives.StripUVs{Start: vector2.New(0., 0.), End: vector2.New(1., 0.), Width: 1}}.ToMesh())
-			case 1:
-				return one(primitives.Circle{Sides: sides, Radius: 1, UVs: &primitives.CircleUVs{Radius: 0.5}}.ToMesh())
-			}
-			return one(primitives.Cone{Height: 1, Radius: 1, Sides: sides}.ToMesh())
-		}}
-	}})
+	// ---- sources (sources.go) ------------------------------------------------
+	for _, o := range sources() {
+		add(o)
+	}
 	add(Op{Name: "gen.Mesh", Group: "source", Kind: Source, Make: func(r *rand.Rand, m *modeling.Mesh, e *Env) Call {
 		fresh, d := gen.Mesh(r, gen.MeshOpts{Materials: true, AllowEmpty: true, MaxVerts: 30})
 		return Call{Desc: "gen.Mesh " + d.Sig(), Pre: true, Run: func() ([]modeling.Mesh, error) { return one(fresh) }}
